@@ -171,16 +171,34 @@ def specTail (fmt : Array UInt8) (al : Tz.AbsLookup) (tm : Tm) (t fs : Int) (fue
 theorem loop_zero (fmt : Array UInt8) (al : Tz.AbsLookup) (tm : Tm) (t fs : Int) (st : St) :
     formatLoop fmt al tm t fs 0 st = ⟨st.out, flagFuel⟩ := rfl
 
+/- the loop body with the model's own `match` structure.  The elaborator's default unifier
+strategy needs ~10 s for this `rfl` (the kernel 0.15 s); with lazy projection-delta switched off it
+takes ~4 s -/
+set_option backward.isDefEq.lazyProjDelta false in
+theorem loop_succ_match (fmt : Array UInt8) (al : Tz.AbsLookup) (tm : Tm) (t fs : Int) (fuel : Nat) (st : St)
+    (h : st.cur ≠ fmt.size) :
+    formatLoop fmt al tm t fs (fuel + 1) st =
+      match prep1 fmt st (skipTo fmt st.cur false (fmt.size + 1)) with
+      | (out1, pending1, start1) =>
+        match prep2 fmt out1 pending1 start1
+            (skipTo fmt (skipTo fmt st.cur false (fmt.size + 1)) true (fmt.size + 1)) with
+        | (out2, pending2) =>
+          specTail fmt al tm t fs fuel out2 pending2
+            (skipTo fmt (skipTo fmt st.cur false (fmt.size + 1)) true (fmt.size + 1))
+            (skipTo fmt st.cur false (fmt.size + 1)) := by
+  rw [formatLoop.eq_2, if_neg h]
+  rfl
+
 theorem loop_succ (fmt : Array UInt8) (al : Tz.AbsLookup) (tm : Tm) (t fs : Int) (fuel : Nat) (st : St) :
     formatLoop fmt al tm t fs (fuel + 1) st =
       if st.cur = fmt.size then
         pure (if fmt.size ≠ st.pending then st.out ++ [.run (slice fmt st.pending fmt.size)] else st.out)
       else
         specTail fmt al tm t fs fuel (prep fmt st).1 (prep fmt st).2.1 (prep fmt st).2.2.1 (prep fmt st).2.2.2 := by
-  rw [formatLoop.eq_2]
   by_cases h : st.cur = fmt.size
-  · rw [if_pos h, if_pos h]
-  · rw [if_neg h, if_neg h]; rfl
+  · rw [formatLoop.eq_2, if_pos h, if_pos h]
+  · rw [loop_succ_match _ _ _ _ _ _ _ h, if_neg h]
+    simp only [prep]
 
 theorem loop_step (fmt : Array UInt8) (al : Tz.AbsLookup) (tm : Tm) (t fs : Int) (fuel : Nat) (st : St)
     (o : List Seg) (p c2 c1 : Nat) (hne : st.cur ≠ fmt.size) (hp : prep fmt st = (o, p, c2, c1)) :
